@@ -359,7 +359,7 @@ SystemMaybe<int64_t> Senpai::getReclaimableBytes(
   auto inactive_file_pos = stat_opt->find("inactive_file");
   if (active_file_pos == stat_opt->end() ||
       inactive_file_pos == stat_opt->end()) {
-    throw std::runtime_error("Invalid memory.stat cgroup file");
+    return SYSTEM_ERROR(EINVAL);
   }
   auto file_cache = active_file_pos->second + inactive_file_pos->second;
 
